@@ -93,6 +93,67 @@ def work(item):
     return out
 
 
+def work_places(item):
+    """one comparison constraint that matches m places of the witness (its fitness is a mean over m values), next to h
+    further hard constraints"""
+    from fandango.evolution.evaluation import Evaluator
+
+    m, h, api = item
+    text = f"<start> ::= <digit>{{{m}}}\n<digit> ::= \"1\" | \"0\"\nwhere int(<digit>) >= 1\n" + "".join(f"where len(str(<start>)) >= 0 and {i} >= 0\n" for i in range(h))
+    spec = build(text)
+    word = "1" * m
+    tree = spec.grammar.parse(word)
+    if tree is None or len(spec.constraints) != h + 1:
+        return {"internal": f"places spec m={m} h={h} not as intended", "case": item}
+    ev = Evaluator(spec.grammar, spec.constraints, 1.0, 5, 1.0)
+    gen = ev.evaluate_individual(tree)
+    yielded = []
+    try:
+        while True:
+            yielded.append(next(gen))
+    except StopIteration as st:
+        fitness = st.value[0]
+    out = {"h": h, "r": 0, "order": 0, "fitness": repr(fitness), "yielded": len(yielded), "viol": []}
+    if len(yielded) != 1 or yielded[0] is not tree:
+        out["viol"].append({"kind": "satisfying_tree_not_accepted", "h": h, "r": 0, "places": m, "fitness": repr(fitness), "spec": text if m <= 8 else f"places spec m={m} h={h}",
+                            "sig": f"not_accepted:places:fitness={fitness!r}"})
+    if api:
+        spec2 = build(text)
+        try:
+            sols = spec2.fuzz(desired_solutions=1, max_generations=1, population_size=2, random_seed=1, initial_population=[word])
+        except Exception as e:
+            sols = []
+            out["api_error"] = repr(e)
+        out["api"] = len(sols)
+        if len(sols) < 1:
+            out["viol"].append({"kind": "fuzz_reports_no_solution", "h": h, "r": 0, "places": m, "spec": text, "sig": "fuzz_reports_no_solution:places"})
+    return out
+
+
+def work_history(item):
+    """the same question asked of ONE spec object after an earlier search with extra constraints: the witness satisfies
+    every constraint of the spec, so the second search (which gets it in its initial population) must report it"""
+    h, r = item
+    text = spec_text(h, r, 0)
+    word = "2" + "x" * 2 * r
+    spec = build(text)
+    out = {"h": h, "r": r, "order": 0, "fitness": "history", "yielded": 0, "viol": []}
+    try:
+        spec.fuzz(desired_solutions=1, max_generations=1, population_size=2, random_seed=1, extra_constraints=['str(<n>) == "9"'])
+    except Exception as e:
+        out["first_search"] = type(e).__name__
+    try:
+        sols = spec.fuzz(desired_solutions=1, max_generations=1, population_size=2, random_seed=1, initial_population=[word])
+    except Exception as e:
+        sols = []
+        out["api_error"] = repr(e)
+    out["api"] = len(sols)
+    if len(sols) < 1:
+        out["viol"].append({"kind": "fuzz_reports_no_solution", "h": h, "r": r, "after": "an earlier search on the same object with extra_constraints", "spec": text,
+                            "sig": "fuzz_reports_no_solution:after_extra_constraints"})
+    return out
+
+
 def run(ctx: Ctx) -> None:
     H = R = 12 if ctx.quick else 40
     items = []
@@ -105,6 +166,11 @@ def run(ctx: Ctx) -> None:
             if r >= 1 and h <= 6 and r <= 6:
                 items.append((h, r, 0, h + r <= 4, "0"))
     results = pmap_tagged(work, items, chunk=4)
+    M = 32 if ctx.quick else 80
+    places = [(m, h, m <= 16 and h == 0) for m in range(1, M + 1) for h in (0, 1, 3)]
+    results += pmap_tagged(work_places, places, chunk=4)
+    hist = [(h, r) for h in range(0, 4) for r in range(0, 4) if h + r > 0]
+    results += pmap_tagged(work_history, hist, chunk=2)
     fitness_values = set()
     api_runs = 0
     for res in results:
@@ -116,9 +182,11 @@ def run(ctx: Ctx) -> None:
         for v in res["viol"]:
             ctx.violation(v)
     ctx.coverage.update(
-        states=len(items), transitions=len(items) + api_runs, traces_validated_against_impl=len(items) + api_runs,
+        states=len(items) + len(places) + len(hist), transitions=len(items) + len(places) + len(hist) + api_runs, traces_validated_against_impl=len(items) + len(places) + len(hist) + api_runs,
+        match_places=M, history_configurations=len(hist),
         samples=[{"h": 1, "r": 5, "order": 0, "spec": spec_text(1, 5, 0)}], exhaustive=True,
         H=H, R=R, orders=3, api_runs=api_runs, distinct_fitness_values=sorted(fitness_values),
         rule="configuration = (h trivially-true where clauses, r computed repetitions, declaration order); the full lattice 0..H x 0..R x 3 is walked; "
-             "each configuration evaluates one independently confirmed satisfying tree with the real Evaluator",
+             "each configuration evaluates one independently confirmed satisfying tree with the real Evaluator; plus: one comparison constraint matching m = 1..M places of the witness "
+             "(next to 0, 1 or 3 further constraints); plus: the (h, r) question asked again of one spec object after an earlier search with extra constraints",
     )
